@@ -83,7 +83,7 @@ Owes ==
 TNewStore ==
   /\ Line("newstore") /\ Quiet
   /\ S!NewStore([declared |-> ToSet(E.declared), allowLookup |-> E.allowlookup, expiry |-> E.expiry,
-                 hasCache |-> E.cache.kind # "none", fileClient |-> E.fileclient, auto |-> E.auto],
+                 hasCache |-> E.cache.kind # "none", fileClient |-> E.fileclient, auto |-> E.auto, structs |-> E.structs],
                 E.bad, Dl(E.deadline), CacheOf(E.cache))
   /\ Owes /\ Adv
 
@@ -157,13 +157,16 @@ TReset ==
   /\ cfg' = S!NoCfg /\ m' = [n \in NameSet |-> Nil] /\ handles' = {} /\ phase' = "config" /\ closed' = "open"
   /\ ini' = S!NoIni /\ poll' = Nil /\ lk' = [n \in NameSet |-> Nil] /\ rq' = S!NoReqs
   /\ call' = [k \in CallerSet |-> Nil] /\ now' = 0
-  /\ hist' = [served |-> [n \in NameSet |-> {}], inst |-> [n \in NameSet |-> <<>>], supplied |-> {}]
+  /\ hist' = [served |-> [n \in NameSet |-> {}], inst |-> [n \in NameSet |-> <<>>], supplied |-> {}, polls |-> 0, pollErrs |-> 0, fetches |-> 0]
   /\ svc' = [n \in NameSet |-> [ver |-> 1, mode |-> "ok"]]
   /\ cache' = [kind |-> "none", doc |-> S!NoDoc, wfail |-> FALSE]
   /\ out' = [ev |-> "init"] /\ rets' = {} /\ owed' = Nil /\ rd' = [r \in ReaderSet |-> Nil] /\ Adv
 
 \* end of a history: nothing may be left owed or in flight that the specification says must have happened
-TEnd == Line("end") /\ Quiet /\ ~S!Urgent /\ (\A r \in ReaderSet : rd[r] = Nil) /\ Adv /\ UNCHANGED <<svars, rets, owed>>
+\* (the line carries the metrics the running store exports, when there is one: they are functions of the history)
+MetricsOK == (E.metrics.known = "t" /\ phase = "running") =>
+               /\ E.metrics.polls = hist.polls /\ E.metrics.pollerrs = hist.pollErrs /\ E.metrics.fetches = hist.fetches
+TEnd == Line("end") /\ Quiet /\ ~S!Urgent /\ (\A r \in ReaderSet : rd[r] = Nil) /\ MetricsOK /\ Adv /\ UNCHANGED <<svars, rets, owed>>
 
 Init ==
   /\ S!Init /\ svc = [n \in NameSet |-> [ver |-> 1, mode |-> "ok"]]
